@@ -80,6 +80,7 @@ def check(ctx):
                 rc, log, to = ctx.go_run(drv, "TestVerifMirror", timeout=900,
                                          env={"VERIF_CASES": cin, "VERIF_OUT": cout, "VERIF_PROTO": proto, "VERIF_MAXUDP": mx,
                                               "VERIF_PORT": port, "VERIF_PROGRESS": prog, "VERIF_OTHERUDP": other, "VERIF_BURST": burst,
+                                              "VERIF_V6MIX": 1 if mx >= 64 else 0,
                                               "VERIF_V6FLOOD": 2200 if (mx == 64 and burst == runs[0][1]) else 0})
                 if "raw receive socket" in log or "operation not permitted" in log:
                     raise vlib.Infra("raw sockets not available: " + log[-500:])
@@ -116,6 +117,26 @@ def check(ctx):
     #    queue full), gate-scheduled with pool probes and validated by PipelineTrace.tla, and 4 in parallel under the
     #    race detector: every published message is the stand-alone message of its own datagram (Pipeline.tla: WMirror,
     #    MirrorSend, MirrorIsCopy, NoUseAfterPut; the 'returns its own buffer on a full mirror queue' variant refuted)
+    # a mirror target the raw socket cannot send to (limited broadcast without SO_BROADCAST): nothing can be re-emitted,
+    # the collector goes on receiving and decoding
+    for proto in ("ipfix", "sflow"):
+        bout = os.path.join(d, "badtarget-%s.json" % proto)
+        if os.path.exists(bout):
+            os.remove(bout)
+        rc, log, to = ctx.go_run(drv, "TestVerifMirrorBadTarget", timeout=120,
+                                 env={"VERIF_OUT": bout, "VERIF_PROTO": proto, "VERIF_BADTARGET": "255.255.255.255"})
+        ctx.count([proto, "unsendable-target"])
+        if to:
+            raise vlib.Infra("bad-target driver timed out")
+        if rc != 0 or not os.path.exists(bout):
+            why = next((l for l in log.split("\n") if l.startswith(("panic:", "fatal error:"))), "the process exited (status %s)" % rc)
+            ctx.violation("%s mirroring towards a target the mirror worker cannot send to (255.255.255.255): the collector process ended: %s"
+                          % (proto, why), {"proto": proto, "log": log[-1500:]}, key=proto + ":badtarget-died")
+            continue
+        if json.load(open(bout)).get("queue", 0) > 0:
+            ctx.violation("%s mirroring towards a target the mirror worker cannot send to: the worker stopped taking datagrams" % proto,
+                          {"proto": proto}, key=proto + ":badtarget-stalled")
+        ctx.traces_validated += 1
     from props import c12, c15
     c15.full_queue_shutdown(ctx, thorough, ["ipfix", "sflow"], mirror=True)
     c12.check(ctx, want="C16")
